@@ -439,25 +439,25 @@ func runNoLeader(steps []wStep, text bool, state int) (msg string, err string) {
 			return
 		}
 		for si, r := range per {
-		if si < len(steps) && steps[si].Text != nil {
-			switch strings.ToUpper(steps[si].Text[0]) {
-			case "GET", "EXISTS", "STRLEN", "TYPE", "TTL", "PTTL", "KEYS", "SCAN", "PING":
-				continue // reads are served from the node's own replica: nothing is granted, queued or released
-			}
-		}
-		for _, x := range r {
-			ok := strings.Contains(x, "STATE_ERROR") || strings.HasPrefix(x, "-") || x == "<closed>" || strings.HasPrefix(x, "r238=") || x == "+PONG" // ping replies
-			if !ok {
-				kind := "other"
-				for _, n := range []string{"UNLOCK_ERROR", "UNOWN_ERROR", "SUCCED", "TIMEOUT", "LOCKED_ERROR"} {
-					if strings.Contains(x, n) {
-						kind = n
-					}
+			if si < len(steps) && steps[si].Text != nil {
+				switch strings.ToUpper(steps[si].Text[0]) {
+				case "GET", "EXISTS", "STRLEN", "TYPE", "TTL", "PTTL", "KEYS", "SCAN", "PING":
+					continue // reads are served from the node's own replica: nothing is granted, queued or released
 				}
-				msg = kind + "|" + fmt.Sprintf("step%d a request was answered %q instead of being refused with STATE_ERROR (all replies %v)", si, x, per)
-				return
 			}
-		}
+			for _, x := range r {
+				ok := strings.Contains(x, "STATE_ERROR") || strings.HasPrefix(x, "-") || x == "<closed>" || strings.HasPrefix(x, "r238=") || x == "+PONG" // ping replies
+				if !ok {
+					kind := "other"
+					for _, n := range []string{"UNLOCK_ERROR", "UNOWN_ERROR", "SUCCED", "TIMEOUT", "LOCKED_ERROR"} {
+						if strings.Contains(x, n) {
+							kind = n
+						}
+					}
+					msg = kind + "|" + fmt.Sprintf("step%d a request was answered %q instead of being refused with STATE_ERROR (all replies %v)", si, x, per)
+					return
+				}
+			}
 		}
 		after := node.Snapshot().UserString()
 		if strip(before) != strip(after) {
